@@ -199,9 +199,6 @@ func run(d doc, withGen bool) (res result) {
 	var sb strings.Builder
 	dump(reflect.ValueOf(api), &sb, map[uintptr]int{}, 0)
 	res.Dump = sb.String()
-	if d.ParseOnly {
-		return
-	}
 	// the dereferenced spec ogen can emit parses back to an equivalent API
 	var a1dump string
 	{
@@ -239,12 +236,17 @@ func run(d doc, withGen bool) (res result) {
 	}
 	if exp, err := parser.Expand(api); err != nil {
 		res.Expand = "Expand failed: " + err.Error()
+		if d.ParseOnly && strings.Contains(err.Error(), "conflict") {
+			// two components of one name from different files: Expand cannot name both and says so
+			// (a diagnostic by design); what it must not do is emit a spec that describes another API
+			res.Expand = ""
+		}
 	} else if eb, err := yaml.Marshal(exp); err != nil {
 		res.Expand = "marshal of expanded spec failed: " + err.Error()
 	} else {
 		res.Expand, res.ExpandCause = equivalent(eb, "the expanded spec")
 	}
-	if !withGen {
+	if !withGen || d.ParseOnly {
 		return
 	}
 	s2, _ := ogen.Parse(data)
@@ -884,6 +886,16 @@ func bases() []baseDoc {
 	out = append(out,
 		baseDoc{"parameter, header, example, requestBody and response names shared between the root and an external file (local references inside the external file; parse level only)", sharedNames("OS", true)},
 		baseDoc{"schema names shared as well (parse level only)", sharedNames("S", true)},
+		// nothing but schemas under one name in three files (each kind of component is named by its own
+		// code in Expand: a document in which other kinds collide too stops at the first of them)
+		baseDoc{"only schema names shared between the root and two external files (parse level only)", doc{Root: "root.json", ParseOnly: true, Files: map[string]M{
+			"root.json": head(M{
+				"/a": M{"post": op("a", M{"requestBody": jb(R("other.json#/components/schemas/S")), "responses": M{"200": M{"description": "ok", "content": M{"application/json": M{"schema": R("other.json#/components/schemas/S")}}}}})},
+				"/b": M{"post": op("b", M{"requestBody": jb(R("#/components/schemas/S")), "responses": M{"200": M{"description": "ok", "content": M{"application/json": M{"schema": R("#/components/schemas/S")}}}}})},
+				"/c": M{"post": op("c", M{"requestBody": jb(R("third.json#/components/schemas/S")), "responses": M{"200": M{"description": "ok", "content": M{"application/json": M{"schema": M{"type": "array", "items": R("third.json#/components/schemas/S")}}}}}})},
+			}, M{"schemas": M{"S": rootS}}),
+			"other.json": {"components": M{"schemas": M{"S": otherS}}},
+			"third.json": {"components": M{"schemas": M{"S": M{"type": "string", "maxLength": 2}}}}}}},
 	)
 	return out
 }
